@@ -34,6 +34,10 @@ var c16Alphabet = []string{
 	"remove ra",
 	"remove rb",
 	"restart",
+	// the policy is applied before the pause/stop gate: a stopped or paused TLS service still redirects plain HTTP
+	"stop ra msg=closed",
+	"pause sa max=20000",
+	"stop sb msg=closed",
 }
 
 func c16Spec(tier string) *HSpec {
